@@ -8,11 +8,12 @@ use serde_json::json;
 
 pub struct C08 {
     tier: Tier,
+    small: bool,
 }
 
 impl C08 {
     pub fn new(tier: Tier) -> C08 {
-        C08 { tier }
+        C08 { tier, small: false }
     }
 }
 
@@ -210,7 +211,7 @@ impl C08 {
         }
         let layout_desc: Vec<String> = model.areas.iter().map(|a| format!("[{:#x},+{:#x})", a.start, a.data.len())).collect();
         col.distinct_key(&format!("layout|{}", layout_desc.len()));
-        let nops = rng.range(60, 200);
+        let nops = if self.small { rng.range(6, 12) } else { rng.range(60, 200) };
         let mut tail: Vec<String> = Vec::new();
         for step in 0..nops {
             let ai = rng.below(model.areas.len() as u64) as usize;
@@ -426,9 +427,12 @@ impl C08 {
 
 impl Monitor for C08 {
     fn total_cases(&self) -> u64 {
-        self.tier.pick(3_000, 400_000)
+        self.tier.pick(30_000, 1_000_000)
     }
     fn run_case(&mut self, k: u64, rng: &mut Rng, col: &mut Collector) {
         self.history(k, rng, col);
+    }
+    fn shrink(&mut self) {
+        self.small = true;
     }
 }
